@@ -95,7 +95,7 @@ Qed.
 Lemma inv_stk_frame : forall s s' tid, inv_stk s -> tid < nthr s ->
   mods s' = mods s -> execs s' = execs s -> incl (registry s) (registry s') -> nthr s' = nthr s ->
   (forall i, i <> tid -> thr s' i = thr s i) ->
-  stack (thr s' tid) = stack (thr s tid) ->
+  (map fst (stack (thr s' tid)) = map fst (stack (thr s tid)) /\ tl (stack (thr s' tid)) = tl (stack (thr s tid))) ->
   shape (thr s' tid) ->
   (forall m ls rest, stack (thr s tid) = (m, ls) :: rest -> top_ok (E s) (ph (thr s' tid)) m) ->
   (forall t, tgt_of (ph (thr s' tid)) = Some t -> In t (registry s')) ->
@@ -104,19 +104,22 @@ Proof.
   intros s s' tid I Hlt Hm He Hr Hn Ho Hst Hsh Htop Htg.
   assert (HE : forall x, E s' x = E s x) by (intros; unfold E; now rewrite Hm).
   assert (HL : forall i, labels s' i = labels s i).
-  { intros i. unfold labels. destruct (Nat.eq_dec i tid) as [->|Hne]; [now rewrite Hst|now rewrite Ho]. }
+  { intros i. unfold labels. destruct (Nat.eq_dec i tid) as [->|Hne]; [apply Hst|now rewrite Ho]. }
+  assert (Hold : forall m ls rest, stack (thr s' tid) = (m, ls) :: rest -> exists ls', stack (thr s tid) = (m, ls') :: rest).
+  { intros m ls rest Hs. destruct Hst as [Hf Ht]. rewrite Hs in Hf, Ht. cbn in Hf, Ht.
+    destruct (stack (thr s tid)) as [|[m' l'] r']; [discriminate|]. cbn in Hf, Ht. injection Hf as <- _. subst. eauto. }
   destruct I. constructor; intros; rewrite ?HL, ?Hm, ?He, ?Hn in *; eauto.
   - destruct (Nat.eq_dec tid0 tid) as [->|Hne]; [lia|]. rewrite Ho; auto.
   - destruct (Nat.eq_dec tid0 tid) as [->|Hne]; [auto|]. rewrite Ho; auto.
   - destruct (s_exld0 m H) as [?|[i Hi]]; auto. right. exists i. now rewrite HL.
   - rewrite HE in H. destruct (s_edge0 m H) as [i Hi]. exists i. now rewrite HL.
   - destruct (Nat.eq_dec tid0 tid) as [->|Hne].
-    + rewrite Hst in H. unfold top_ok. specialize (Htop _ _ _ H). unfold top_ok in Htop.
+    + destruct (Hold _ _ _ H) as [ls' H']. unfold top_ok. specialize (Htop _ _ _ H'). unfold top_ok in Htop.
       destruct (ph (thr s' tid)); rewrite ?HE; auto.
     + rewrite (Ho tid0 Hne) in *. specialize (s_top0 _ _ _ _ H). unfold top_ok in *.
       destruct (ph (thr s tid0)); rewrite ?HE; auto.
   - apply chain_ok_ext with (E := E s); [intros; apply HE|].
-    destruct (Nat.eq_dec tid0 tid) as [->|Hne]; [rewrite Hst in H|rewrite (Ho tid0 Hne) in H]; eauto.
+    destruct (Nat.eq_dec tid0 tid) as [->|Hne]; [destruct (Hold _ _ _ H) as [ls' H']|rewrite (Ho tid0 Hne) in H]; eauto.
   - destruct (Nat.eq_dec tid0 tid) as [->|Hne]; [auto|]. rewrite (Ho tid0 Hne) in H; eauto.
 Qed.
 
@@ -375,7 +378,7 @@ Proof.
   - (* KStartHit *) rewrite H in Hsh.
     eapply inv_stk_frame with (tid := tid); [exact IS|assumption|proj_simpl; auto; try apply incl_refl..].
     + intros. now rewrite upd_other.
-    + now rewrite upd_same.
+    + rewrite upd_same. cbn. now rewrite Hsh.
     + rewrite upd_same. exact I.
     + intros m ls rest Hs. rewrite Hsh in Hs. discriminate.
     + rewrite upd_same. cbn. intros t [= <-]. auto.
@@ -385,7 +388,7 @@ Proof.
   - (* KHit *)
     eapply inv_stk_frame with (tid := tid); [exact IS|assumption|proj_simpl; auto; try apply incl_refl..].
     + intros. now rewrite upd_other.
-    + rewrite upd_same. cbn. congruence.
+    + rewrite upd_same. cbn. rewrite H0. auto.
     + rewrite upd_same. unfold shape. cbn. discriminate.
     + rewrite upd_same. cbn. intros m0 ls0 rest0 Hs. rewrite H0 in Hs. injection Hs as <- _ _.
       pose proof (s_top _ IS _ _ _ _ H0) as Ht. now rewrite H in Ht.
@@ -393,7 +396,7 @@ Proof.
   - (* KMiss *)
     eapply inv_stk_frame with (tid := tid); [exact IS|assumption|proj_simpl; auto; try (apply incl_tl, incl_refl)..].
     + intros. now rewrite upd_other.
-    + rewrite upd_same. cbn. congruence.
+    + rewrite upd_same. cbn. rewrite H0. auto.
     + rewrite upd_same. unfold shape. cbn. discriminate.
     + rewrite upd_same. cbn. intros m0 ls0 rest0 Hs. rewrite H0 in Hs. injection Hs as <- _ _.
       pose proof (s_top _ IS _ _ _ _ H0) as Ht. now rewrite H in Ht.
@@ -407,14 +410,14 @@ Proof.
     pose proof (s_top _ IS _ _ _ _ H0) as Ht. rewrite H in Ht. cbn in Ht.
     eapply inv_stk_frame with (tid := tid); [exact IS|assumption|proj_simpl; auto; try apply incl_refl..].
     + intros. now rewrite upd_other.
-    + rewrite upd_same. cbn. congruence.
+    + rewrite upd_same. cbn. rewrite H0. auto.
     + rewrite upd_same. exact I.
     + rewrite upd_same. cbn. intros m0 ls0 rest0 Hs. rewrite H0 in Hs. now injection Hs as <- _ _.
     + rewrite upd_same. cbn. intros t0 [= <-]. apply (s_tgt _ IS tid). now rewrite H.
   - (* KWalkCycle *)
     eapply inv_stk_frame with (tid := tid); [exact IS|assumption|proj_simpl; auto; try apply incl_refl..].
     + intros. now rewrite upd_other.
-    + rewrite upd_same. cbn. congruence.
+    + rewrite upd_same. cbn. rewrite H0. auto.
     + rewrite upd_same. unfold shape. cbn. discriminate.
     + rewrite upd_same. cbn. auto.
     + rewrite upd_same. cbn. discriminate.
@@ -422,7 +425,7 @@ Proof.
     pose proof (s_top _ IS _ _ _ _ H0) as Ht. rewrite H in Ht. cbn in Ht.
     eapply inv_stk_frame with (tid := tid); [exact IS|assumption|proj_simpl; auto; try apply incl_refl..].
     + intros. now rewrite upd_other.
-    + rewrite upd_same. cbn. congruence.
+    + rewrite upd_same. cbn. rewrite H0. auto.
     + rewrite upd_same. exact I.
     + rewrite upd_same. cbn. intros m0 ls0 rest0 Hs. rewrite H0 in Hs. now injection Hs as <- _ _.
     + rewrite upd_same. cbn. intros t0 [= <-]. apply (s_tgt _ IS tid). now rewrite H.
@@ -430,21 +433,21 @@ Proof.
     pose proof (s_top _ IS _ _ _ _ H0) as Ht. rewrite H in Ht. cbn in Ht.
     eapply inv_stk_frame with (tid := tid); [exact IS|assumption|proj_simpl; auto; try apply incl_refl..].
     + intros. now rewrite upd_other.
-    + rewrite upd_same. cbn. congruence.
+    + rewrite upd_same. cbn. rewrite H0. auto.
     + rewrite upd_same. unfold shape. cbn. discriminate.
     + rewrite upd_same. cbn. intros m0 ls0 rest0 Hs. rewrite H0 in Hs. now injection Hs as <- _ _.
     + rewrite upd_same. cbn. intros t0 [= <-]. apply (s_tgt _ IS tid). now rewrite H.
   - (* KWokenRoot *)
     eapply inv_stk_frame with (tid := tid); [exact IS|assumption|proj_simpl; auto; try apply incl_refl..].
     + intros. now rewrite upd_other.
-    + rewrite upd_same. cbn. congruence.
+    + rewrite upd_same. cbn. rewrite H0. auto.
     + rewrite upd_same. reflexivity.
     + intros m ls rest Hs. rewrite H0 in Hs. discriminate.
     + rewrite upd_same. cbn. discriminate.
   - (* KWoken *)
     eapply inv_stk_frame with (tid := tid); [exact IS|assumption|proj_simpl; auto; try apply incl_refl..].
     + intros. now rewrite upd_other.
-    + rewrite upd_same. cbn. congruence.
+    + rewrite upd_same. cbn. rewrite H0. auto.
     + rewrite upd_same. unfold shape. cbn. discriminate.
     + rewrite upd_same. cbn. auto.
     + rewrite upd_same. cbn. discriminate.
